@@ -4,7 +4,7 @@
 From Coq Require Import Extraction ExtrOcamlBasic.
 From Coq Require Import List NArith ZArith String.
 From Gen Require Import Tables.
-From Model Require Import Base Names Flt F32 Matches Detect.
+From Model Require Import Base Names Flt F32 Matches Detect Declared.
 
 Extraction Language OCaml.
 Separate Extraction
@@ -15,4 +15,5 @@ Separate Extraction
   Matches.cmp Matches.cmp_key Matches.append Matches.matches_new Matches.get_by_encoding Matches.get_best
   Matches.unicode_ranges Matches.most_probably_language Matches.multi_byte_usage Matches.coherence
   Matches.languages Matches.suitable_encodings Matches.chaos_percents Matches.coherence_percents
-  Detect.from_bytes Detect.probe Detect.make_ctx.
+  Detect.from_bytes Detect.probe Detect.make_ctx
+  Declared.any_specified_encoding.
